@@ -90,6 +90,13 @@ Theorem C11_inadmissible_refused : forall st ss x, Inv st ss -> names_vanilla x 
 Proof. exact inadmissible_refused. Qed.
 Print Assumptions C11_inadmissible_refused.
 
+(* The model's explicit fuel outcomes never occur: ErrFuel is excluded by C11_admissible_accepted (outcome Ok) and
+   C11_inadmissible_refused (outcome = the specification's error); a send never answers ROutOfFuel, whatever the state
+   and the number of whoppers. *)
+Theorem C11_send_never_out_of_fuel : forall st f m arg, snd (send st f m arg) <> ROutOfFuel.
+Proof. exact send_total. Qed.
+Print Assumptions C11_send_never_out_of_fuel.
+
 (* (10) Refuted for the code as it still is: with whoppers on three consecutive combinations the third is skipped
    (WhopLoc.Continue hands the next whopper a location one past its index).  Known finding, guard g_whop. *)
 Theorem C11_third_whopper_skipped_refuted :
